@@ -50,6 +50,8 @@ def cases(tier, seed):
                 c["store"] = ["files", "files+levels"][(hi // 6) % 2]
             if (hi + k) % 6 == 5:     # ... or is reached through `<symlinked directory>/../plt00100`
                 c["reach"] = True
+            if (hi + k) % 6 == 4:     # maxima whose text is longer than the text of every minimum of their level
+                c["long_max"] = True
             if (hi + k) % 6 == 3:     # level directories under another prefix than the default
                 c["level_prefix"] = ["Lev_", "amr_level_"][(hi // 6) % 2]
             if (hi + k) % 6 == 0:     # file numbers of five and six digits at one level
@@ -122,6 +124,9 @@ def run_case(case, work, rec):
         digest = common.sha("chk", case["seed"])
     else:
         m = gen.gen_model(**case["gen"])
+        if case.get("long_max"):
+            gen.plant_long_max(m, case["gen"]["seed"])
+            rec.count("long_maximum_tokens")
         cur = os.path.join(work, "plt00100")
         gen.write_plotfile(m, cur, ref_ratio_extra=rng.choice([0, 1]), trailing_blank=rng.random() < 0.7,
                            level_prefix=case.get("level_prefix", "Level_"))
